@@ -41,6 +41,16 @@ def targeted():
     for bmod in gramgen.MODS:
         for bbody in ['"a" ~ "b"', '"a" | "b"', '^"a"', '"a"+', "'a'..'b'", '"a" ~ "b" | "b"', '"ab"']:
             out += [g('(!b ~ ANY)* ~ b?', "@", bbody, bmod, '_{ " " }'), g('(!(b | "c") ~ ANY)*', "@", bbody, bmod, '_{ " " }'), g('(!b ~ ANY)*', "@", bbody, bmod)]
+    # every rewrite shape under each configuration of implicit rules and each rule type
+    for body in ['"a" ~ "b" | "a"', 'b ~ "a" | b', '"a" | "a" ~ "b"', '"a" ~ "b" | "a" ~ "c"', '("a" ~ "b")* ~ "a"', '(b ~ "a")* ~ b', '("a" ~ "b") ~ "c"', '"a" ~ "b" ~ "c"', '(!"b" ~ ANY)* ~ "b"', '"a"{2} ~ "b"?', '"a"{1,2} ~ "a"']:
+        for ws, cm in [(None, '_{ "#" }'), ('_{ " " }', '_{ "#" }'), (None, '{ "#" ~ "#"? }'), ('{ " " }', None)]:
+            for m in ["", "!", "@", "$"]:
+                out.append(g(body, m, '"b"', "", ws, cm))
+    # restore points: a popping operation that can fail as the bare operand of a branching construct nested in another one
+    for body in ['PUSH("a") ~ ("x" | POP | "b") ~ PEEK_ALL', 'PUSH("a") ~ ("-" ~ POP?)? ~ PEEK_ALL', 'PUSH("a") ~ (POP | "b")* ~ PEEK_ALL?', 'PUSH("a") ~ ("x" | (POP_ALL | "b")) ~ PEEK_ALL',
+                 'PUSH(ANY) ~ (("x" ~ "y" | POP)? ~ ANY)? ~ PEEK', 'PUSH("a") ~ (!("x" | POP) ~ ANY)* ~ PEEK_ALL', 'PUSH("a") ~ ("x" | "y" | "z" | POP | "b") ~ PEEK']:
+        out += [g(body), g(body, "", '"b"', "", '_{ " " }'), g(body, "@")]
+    out.append(g('PUSH("a") ~ ("x" | b | "c") ~ PEEK_ALL', "", 'POP', "_"))
     # near-miss permutations of every rewrite pattern (a pass must fire only on its own shape)
     ab = ['"a"', '"b"']
     import itertools
